@@ -9,3 +9,4 @@ INVARIANT SameExtentAfter
 INVARIANT CoversAll
 INVARIANT OccupancyKept
 INVARIANT AddedNotFree
+INVARIANT PostLandsAtItsIndex
